@@ -3,7 +3,7 @@
 #include <signal.h>
 #include <unistd.h>
 
-FILE *vt_out = NULL;
+__thread FILE *vt_out = NULL;
 /* A fatal signal anywhere in a driver: flush what was recorded, print the signal and the symbolic call stack on stderr and exit.
  * tools/vlib.py attributes the crash: if the innermost known frame is a library function it becomes a Crash event of the trace
  * (which no trace specification can consume), if it is harness code it is an infrastructure error. */
